@@ -6,6 +6,7 @@ return).  Oracle = transparency per worker: the caller gets the very object / ex
 runs exactly once, nothing else is raised into the service, and the operation returns its own result.
 """
 import itertools
+import zlib
 import multiprocessing as mp
 import random
 
@@ -30,6 +31,15 @@ class Chooser(object):
         if self.target is not None and any(e['by'] == self.target for e in new):
             self.target = None
         names = [n for n, h in enabled if h == 'run']
+        # a participant that was just preempted at a line anchor lets somebody else run first
+        cur = [n for n in names if sched.parts[n].label.startswith('anchor:') and not getattr(sched.parts[n], 'anchor_served', None) == sched.parts[n].label + str(len(sched.preemptions))]
+        if cur:
+            p = sched.parts[cur[0]]
+            p.anchor_served = p.label + str(len(sched.preemptions))
+            others = [n for n in names if n != cur[0]]
+            if others:
+                self.target = None
+                return (others[(len(sched.preemptions) + self.i) % len(others)], 'run')
         if self.target is None and self.i < len(self.moves):
             self.target = self.moves[self.i]
             self.i += 1
@@ -41,13 +51,19 @@ class Chooser(object):
         return (sorted(names)[0], 'run') if names else enabled[0]
 
 
-def execute(faults, dact, moves):
+def execute(faults, dact, moves, anchor_seed=None):
     from playback.tape_recorder import TapeRecorder, RecordingParameters
     from playback.tape_cassettes.in_memory.in_memory_tape_cassette import InMemoryTapeCassette
     from playback.tape_cassette import TapeCassette
     from playback.interception.input_interception import InputInterceptionDataHandler
     chooser = Chooser(moves)
     sched = Scheduler(chooser, urgency=True, max_steps=3000)
+    if anchor_seed is not None:
+        import playback.tape_recorder as _trm
+        import playback.recording as _rm
+        sched.set_anchors(_trm.__file__.replace('.pyc', '.py'),
+                          r'_active_recording|_force_sample|_invoke_counter|_currently_in_interception',
+                          random.Random(anchor_seed), budget=2, prob=0.12)
     inner = InMemoryTapeCassette()
     res = {'violations': [], 'drift': 0}
 
@@ -191,6 +207,9 @@ def execute(faults, dact, moves):
                 res['violations'].append('caller of %s saw %r instead of the exception its body raised' % (w, s))
         elif not (s[0] == 'val' and s[1] is produced.get(w)):
             res['violations'].append('caller of %s saw %r instead of the object its body returned' % (w, s))
+    for n, p in sched.parts.items():
+        if p.exc is not None:
+            res['violations'].append('thread %s of the service got %r from the recorder' % (n, p.exc))
     if not main_seen or main_seen[0][0] != 'val' or main_seen[0][1] is not op_result:
         res['violations'].append('operation outcome %r instead of its own result' % (main_seen,))
     # observation, not part of C04's statement (and schedules are outside C09's / C17's quantifiers): a force request racing
@@ -207,14 +226,22 @@ _G = {}
 def _work(task):
     import logging
     logging.disable(logging.CRITICAL)
-    name, faults, dact, items = task
+    name, faults, dact, items, anchored = task
     g = _G[name]
     out = []
-    for it in items:
+    for k, it in enumerate(items):
         moves = [g.states[n]['who'] for n in it[1:]]
         r = execute(faults, dact, moves)
         r['moves'] = moves
+        r['anchor_seed'] = None
         out.append(r)
+        # the same schedule with up to two randomised preemptions at line anchors (accesses to the shared state)
+        for j in range(anchored):
+            aseed = zlib.crc32(repr((name, k, j)).encode()) & 0xffffff
+            r2 = execute(faults, dact, moves, anchor_seed=aseed)
+            r2['moves'] = moves
+            r2['anchor_seed'] = aseed
+            out.append(r2)
     return name, faults, dact, out
 
 
@@ -261,7 +288,7 @@ def run_part(rep, tier, seed):
                 g.states[n]
             _G[name] = g
             total_sched += len(paths)
-            tasks = [(name, faults, dact, paths[i:i + 50]) for i in range(0, len(paths), 50)]
+            tasks = [(name, faults, dact, paths[i:i + 50], 1 if quick else 3) for i in range(0, len(paths), 50)]
             ctx = mp.get_context('fork')
             with ctx.Pool(min(tlc.NCPU, max(1, len(tasks)))) as pool:
                 for nm, fts, da, out in pool.imap_unordered(_work, tasks):
@@ -275,14 +302,14 @@ def run_part(rep, tier, seed):
                         if res['violations']:
                             rep.violation({'summary': 'threads: %s | faults=%s discarder=%s' % (res['violations'][0][:300], fts, da),
                                            'signature': None, 'all': res['violations'][:4]},
-                                          replay={'kind': 'threads', 'faults': fts, 'dact': da, 'moves': res['moves']})
+                                          replay={'kind': 'threads', 'faults': fts, 'dact': da, 'moves': res['moves'], 'anchor_seed': res.get('anchor_seed')})
             _G[name] = None
     rep.extra['threads_part'] = {'configurations': len(configs), 'schedules_replayed': total_sched}
 
 
 def replay(rep, body):
     rp = body['replay']
-    res = execute(rp['faults'], rp['dact'], rp['moves'])
+    res = execute(rp['faults'], rp['dact'], rp['moves'], rp.get('anchor_seed'))
     for v in res['violations']:
         print('VIOLATING', v)
     return not res['violations']
